@@ -395,5 +395,5 @@ func genManifestCase(t *rapid.T) ManifestCase {
 }
 
 func TestC20Manifest(t *testing.T) {
-	evid.Prop(t, "manifest_edit", evid.R.N(2000, 8000), genManifestCase, manifestOracle)
+	evid.Prop(t, "manifest_edit", evid.R.N(2000, 6000), genManifestCase, manifestOracle)
 }
